@@ -13,6 +13,8 @@ R7  f32/f64 read results kept opaque (prelude)
 R8:<idiom>  one std iterator idiom replaced by a call to a helper in contracts/std_assumed.rs whose
     body IS the idiom (external_body) and whose spec is assumed; pattern holes are bound to the
     real sub-expressions.  Idioms are listed in IDIOMS below.
+R16 `for _ in A .. B`  ->  `for _ in verif_itN: A .. B`   (names the ghost iterator so invariants can refer to it)
+R18 `E as <int>` -> `#[verifier::truncate] (E as <int>)`  (annotation: casts wrap, exactly as in Rust)
 R9  `for PAT in A .. B {` kept; `for _ in ..` kept (Verus supports ranges); no-op marker
 R10 `e?` on Option inside fn returning Option untouched; marker only
 """
@@ -125,8 +127,13 @@ def _hole_expr_backward(text, m, end):
                         break
                 j -= 1
             k = j
-        elif c.isalnum() or c == '_' or c == '.':
+        elif c.isalnum() or c == '_' or c == '.' or c == '?':
             k -= 1
+        elif c == ':' and k >= 2 and m[k - 2] == ':':
+            k -= 2
+        elif c == '>' and k >= 2 and m[k - 2:k] != '->' and re.search(r'::<[^<>;{}]*$', m[:k - 1]):
+            # turbofish  ::<T>
+            k = m.rfind('::<', 0, k)
         elif c in ' \n\t':
             # whitespace inside a method chain: allowed if a '.' follows it or precedes it
             j = k
@@ -212,7 +219,53 @@ def r8_identity_try_into(text, what):
     return text, cnt
 
 
-RULES = {'R1': r1, 'R3': r3, 'R6': r6, 'R8': r8}
+INT_TYPES = ('u8', 'u16', 'u32', 'u64', 'u128', 'usize', 'i8', 'i16', 'i32', 'i64', 'i128', 'isize')
+
+
+def r18(text, arg, what):
+    """`E as <int type>` -> `#[verifier::truncate] (E as <int type>)`: tells Verus that the cast has Rust's
+    wrapping semantics (it never panics) instead of leaving out-of-range results unspecified"""
+    m = rp.mask(text)
+    cnt = 0
+    pos = 0
+    while True:
+        mm = re.compile(r'\s+as\s+(' + '|'.join(INT_TYPES) + r')\b').search(m, pos)
+        if not mm:
+            break
+        rs = _hole_expr_backward(text, m, mm.start())
+        # unary minus / deref / not in front of the operand belong to it
+        while rs > 0 and m[rs - 1] in '-*!&':
+            rs -= 1
+        expr = text[rs:mm.start()]
+        if not expr.strip():
+            pos = mm.end()
+            continue
+        new = f'#[verifier::truncate] ({expr} as {mm.group(1)})'
+        text = text[:rs] + new + text[mm.end():]
+        m = rp.mask(text)
+        pos = rs + len(new)
+        cnt += 1
+    if cnt == 0:
+        raise AnchorError(f'{what}: R18 requested but no integer cast found')
+    return text, cnt
+
+
+def r16(text, arg, what):
+    """name the ghost iterator of `for _ in A .. B` loops (Verus annotation syntax `for _ in it: A .. B`)"""
+    m = rp.mask(text)
+    out, last, cnt = [], 0, 0
+    for mm in re.finditer(r'\bfor\s+_\s+in\s+', m):
+        out.append(text[last:mm.end()])
+        cnt += 1
+        out.append(f'verif_it{cnt}: ')
+        last = mm.end()
+    out.append(text[last:])
+    if cnt == 0:
+        raise AnchorError(f'{what}: R16 requested but no `for _ in` loop found')
+    return ''.join(out), cnt
+
+
+RULES = {'R1': r1, 'R3': r3, 'R6': r6, 'R8': r8, 'R16': r16, 'R18': r18}
 
 
 def apply(text, uses, what):
